@@ -708,12 +708,18 @@ impl Headers {
         };
         let all = [head, body].concat();
         let (ps, rest) = strict_all(&all);
-        let in_cl = named(&last.hs, b"content-length").len();
+        let in_cls = named(&last.hs, b"content-length");
+        let in_cl = in_cls.len();
+        // equal duplicates are the known shape; disagreeing ones must never be forwarded at all
+        let num = |v: &[u8]| String::from_utf8_lossy(v).trim_start_matches('0').to_string();
+        let cl_agree = in_cls.windows(2).all(|w| num(&w[0].1) == num(&w[1].1));
         let class = |dflt: &str| -> String {
             if t.contains(&b' ') {
                 "c03-sp-in-target".into()
-            } else if in_cl >= 2 {
+            } else if in_cl >= 2 && cl_agree {
                 "c03-dup-content-length-forwarded".into()
+            } else if in_cl >= 2 {
+                "c03-conflicting-content-length-forwarded".into()
             } else if last.trailers_sent && b == "c" {
                 "c03-trailers-without-last-chunk".into()
             } else if last.trailers_sent {
@@ -996,6 +1002,18 @@ impl Headers {
         r.tags.push(format!("h1:{}:{}", if rejected { "reject" } else { "noreject" }, und.len().min(3)));
         if self.c03() {
             self.c03_h1_check(r, &input, &backend, &und, rejected);
+        }
+        if self.c13() {
+            // trailers of an HTTP/1.1 request never pass the editor: the client-attribution
+            // fields must not reach the backend that way
+            let (ps, _) = strict_all(&backend);
+            for p in &ps {
+                for (k, _) in &p.trailers {
+                    if [&b"x-real-ip"[..], b"x-forwarded-for", b"forwarded", b"x-request-id"].iter().any(|s| eq_nc(k, s)) {
+                        r.oracle.push(("h1-trailer-spoof".into(), format!("`{}` reaches the backend as an HTTP/1.1 trailer", lossy(k))));
+                    }
+                }
+            }
         }
         strict_line(&input)
     }
